@@ -114,6 +114,10 @@ def make_case(rng):
     if rng.random() < 0.4:
         junk = [("str", [b"junk"])] if rng.random() < 0.5 else [I(7), ("str", [b"x"])]
         starts = [junk + s for s in starts]
+    # a body with an EMPTY alternative (X? or (X,)): every round also hands back the stack it was given
+    if rng.random() < 0.15:
+        body = ("close", "?", body) if rng.random() < 0.5 else ("paren", (), ("alt", [body, ("cat", [])]))
+        kind += "-optional"
     return body, starts, kind
 
 
